@@ -44,7 +44,10 @@ func (m *c20Model) clone() *c20Model {
 	}
 	return n
 }
-func (m *c20Model) push(id int) { m.stack = append(m.stack, id); m.cancelled[id] = m.cancelled[id] || false }
+func (m *c20Model) push(id int) {
+	m.stack = append(m.stack, id)
+	m.cancelled[id] = m.cancelled[id] || false
+}
 func (m *c20Model) finish(id int) {
 	for p, x := range m.stack {
 		if x == id {
